@@ -199,6 +199,8 @@ def find_accessors(cls):
         if isinstance(n, ast.FunctionDef) and n.name.startswith("_") and len(n.args.args) == 1 and not n.args.kwonlyargs:
             rets = [r.value for r in ast.walk(n) if isinstance(r, ast.Return)]
             local = {t.id: ast.unparse(a.value) for a in ast.walk(n) if isinstance(a, ast.Assign) for t in a.targets if isinstance(t, ast.Name)}
+            local.update({a.target.id: ast.unparse(a.value) for a in ast.walk(n)
+                          if isinstance(a, ast.AnnAssign) and isinstance(a.target, ast.Name) and a.value is not None})
             vals = {local.get(r.id, r.id) if isinstance(r, ast.Name) else ast.unparse(r) for r in rets if r is not None}
             if rets and len(vals) == 1 and re.fullmatch(r"self\._\w+", next(iter(vals))):
                 out.add(n.name)
